@@ -49,14 +49,21 @@ CHECKS = {
         note="Setter conformance rests on the correspondence with the validated Spec (differential); the C++ setters are "
              "not modelled statement by statement."),
     "C04": dict(
-        technique="lock-step differential of the two C++ types on generated histories; Lean theorems cover the shared "
-                  "Spec they are both compared to (C01/C03) and the setter-layer model",
-        text="The same (input, base, history) is applied to ada::url_aggregator and ada::url; after every operation return "
-             "value and every observable incl. host kind, opaque flag, href size and the eight offsets are compared "
-             "pairwise. Lean side: guard-model theorems (both types share the setter layer shape).",
-        design_ref="DESIGN.md §5 C04", category="proof",
-        note="The two representations are compared directly on generated histories (differential, generator-bounded); "
-             "the refinement proof url_aggregator -> record is part of C07's model."),
+        technique="Lean 4 proof that the model of ada::url (get_href fast/general path, get_href_size, get_components) "
+                  "computes the aggregator's layout for the same content; model tied to the real ada::url on every state; "
+                  "lock-step differential of the two C++ types on generated histories",
+        text="Props/C04.lean (Model/UrlRec.lean transcribes url-inl.h): for every record the [[likely]] fast path of "
+             "get_href equals the general path, get_href_size is the length of get_href, get_href is the buffer that "
+             "url_aggregator lays out for the same content (layout o toL) and get_components recomputes exactly the "
+             "aggregator's eight offsets (false on the pinned tree, provable after fixes 32af07f/b6b9d92). The model is "
+             "evaluated by the Lean driver on the field values of every real ada::url state and must give the real href, "
+             "size and components. The same (input, base, history) is applied to ada::url_aggregator and ada::url; after "
+             "every operation return value and every observable incl. host kind, opaque flag, href size and the eight "
+             "offsets are compared pairwise.",
+        design_ref="DESIGN.md §5 C04, §11.3", category="proof",
+        note="The setters of ada::url (url.cpp) are not modelled statement by statement: that both types apply the same "
+             "setter semantics is decided by the lock-step run (differential, generator-bounded) and by C03's comparison of "
+             "each type with the Spec."),
     "C05": dict(
         technique="Lean 4 proof of component laws (printable ASCII, re-encode identity, IPv4 round trip, opaque-path "
                   "trailing space) + re-parse fixed point decided on the implementation",
@@ -68,14 +75,24 @@ CHECKS = {
         note="The composition theorem Spec.parse (href u) = u is stated (fixed_point_statement) but not proved; it is "
              "decided per generated input on the implementation."),
     "C07": dict(
-        technique="partition / re-assembly / validate() predicates evaluated on the implementation after every step of "
-                  "generated histories incl. copies; Lean guard-model theorems",
-        text="After every operation of generated parse/set_*/clear_*/copy histories the offsets must partition the href, "
-             "getters equal their slices, re-assembly from getters reproduces the href, href size = length, validate() "
-             "accepts, and copies stay unchanged. (The Lean refinement model of the single-buffer editors is being built; "
-             "until it lands this check is the behavioural part.)",
-        design_ref="DESIGN.md §5 C07", category="proof",
-        note="Editors are exercised through the public API; copy-independence is a runtime fact outside the model."),
+        technique="Lean 4 refinement proof: every in-place editor of the single buffer commutes with the layout serialiser "
+                  "(all contents, all inputs), lifted to histories; model editors tied to the real editors call by call; "
+                  "partition / re-assembly / validate() predicates on the implementation",
+        text="Model/Agg.lean transcribes the buffer + eight offsets and 19 editors of url_aggregator statement by statement; "
+             "Props/C07.lean proves for every content and input that each editor applied to layout(content) is "
+             "layout(edited content) (so the offsets keep partitioning the buffer and only the named component changes), "
+             "that all branches of replace_and_resize agree, that the uint32 wrap-around shifts equal the integer shifts "
+             "below 2^32, getters/size/re-assembly on laid-out URLs, the lift to every admissible history of editor calls, "
+             "and that the layout is the Standard's serialisation and the component setters refine the Standard's setters "
+             "(Spec/Setters). The preconditions the proofs forced are explicit decidable predicates. L1: every real editor "
+             "is called directly and the Lean editor applied to the implementation's pre-state must reproduce its "
+             "post-state; Shape and getters are evaluated by the driver on every state. L2/L3: after every operation of "
+             "generated parse/set_*/clear_*/copy histories the offsets must partition the href, getters equal their slices, "
+             "re-assembly reproduces the href, href size = length, validate() accepts, copies stay unchanged.",
+        design_ref="DESIGN.md §5 C07, §11.3", category="proof",
+        note="partial: append_base_*, update_base_authority, consume_prepared_path, copy_scheme, set_protocol_as_file are "
+             "exercised through the public API only; the setter layer above the editors is modelled separately (Guard, "
+             "C03/C09); copy-independence (std::string aliasing) is a runtime fact outside the model."),
     "C09": dict(
         technique="Lean 4: decide over the parser-exit table regenerated from src/parser.cpp + guard-model theorems; "
                   "step-by-step limit semantics on the implementation",
@@ -151,7 +168,9 @@ CHECKS = {
              "tables_are_ready, the 19 plain pointer stores in program order, the limit accessors). gen_is_expected proves "
              "the source has the modelled configuration; the theorems prove, for every interleaving of any number of threads "
              "under C++11 release/acquire semantics with stale reads, that no data race on the table pointers occurs, every "
-             "user of the tables has the pointer writes in its happens-before view, and at most one thread initialises. "
+             "user of the tables has the pointer writes in its happens-before view, and at most one thread initialises; "
+             "conversely a relaxed READY store, a relaxed first load, or READY stored before the pointer stores each make a "
+             "race reachable (explicit schedules, so a weakened order is a counter-example in the model). "
              "The limit is shown to be one relaxed atomic read once per parse. Fresh processes making the first IDNA call "
              "from 2-16 threads, and a limit flipper against parse/can_parse/setters, run under ThreadSanitizer and plain.",
         design_ref="DESIGN.md §5 C13", category="proof",
@@ -277,7 +296,7 @@ def main():
             "guard": "ADA_URL_ADA_VERIF",
             "enable": "checks compile /repo/src/ada.cpp into the harness with -DADA_URL_ADA_VERIF=1 -fno-access-control",
             "baseline_off_cmd": "cmake --build /repo/_build -j16 -- -k 0; ctest --test-dir /repo/_build -j8 --timeout 900",
-            "source_commits": ["b103ce8", "179f014"],
+            "source_commits": ["9b9df37", "0ae601a"],
             "add_only": True,
         },
         "engines": [{
